@@ -696,7 +696,9 @@ def table(tier):
             yield {'kind': 'unary', 'family': fam, 'a': a}
     for i in range(len(TYPE_TABLE)):
         yield {'kind': 'type', 'index': i}
-    texts = ['hello world', 'Hello, World!', 'hello world\n', 'a\nb', 'b\na', '', 'x', '5.0', 'HELLO   WORLD']
+    texts = ['hello world', 'Hello, World!', 'hello world\n', 'a\nb', 'b\na', '', 'x', '5.0', 'HELLO   WORLD',
+             # letters whose lower-case and case-folded forms differ
+             'Die Straße ist lang', 'STRASSE', 'MASSE: 12 kg', 'maße', 'Η ΟΔΟΣ', 'οδοσ']
     for printed, expected, exact in itertools.product(texts, texts, (False, True)):
         yield {'kind': 'output', 'printed': printed, 'expected': expected, 'exact': exact}
     words = ['hello world', 'Hello, World!', 'HELLO WORLD', 'hello, world', 'helloworld', 'a b c', 'A, b; c.', 'abc', 'a', 'A', 'a.',
